@@ -12,6 +12,8 @@ mod text_filter_body;
 pub use buffer::Buffer;
 #[cfg(kani)]
 pub use error::FilterBodyError as VerifFilterBodyError;
+#[cfg(kani)]
+pub use text_filter_body::{TextFilterAction as VerifTextFilterAction, TextFilterBodyAction as VerifTextFilterBodyAction};
 #[cfg(feature = "compress")]
 pub use encoding::SupportedEncoding;
 pub use filter_body::FilterBodyAction;
